@@ -11,3 +11,50 @@ package waiter
 // non-blocking send on the entry's channel; channels are not part of the heap model.)
 //@ func (*Queue).Notify props C07 C11
 //@   trusted
+
+// ---------------------------------------------------------------------------
+// C17, bounded harnesses (harness_verif.go): real Queue, real intrusive list, up to three
+// entries with arbitrary masks. Every entry registered with an intersecting mask is called back
+// exactly once, no other entry is; an unregistered entry gets no callback and the others are
+// neither lost nor duplicated; Events() is the union of the registered masks.
+
+//@ func (*verifCounter).Callback props C17
+//@   requires c != nil
+//@   ensures c.n == old(c.n) + 1
+//@   modifies c.n
+
+//@ func verifNotify props C17
+//@   bounded at most 3 registered entries, one notification
+//@   impl Element *Entry
+//@   impl Linker *Entry
+//@   inline_callee Notify
+//@   impl EntryCallback *verifCounter
+//@   unroll_calls * 5
+//@   requires 0 <= k && k <= 3
+//@   ensures result1 == ite(k >= 1 && mask & m0 != 0, 1, 0)
+//@   ensures result2 == ite(k >= 2 && mask & m1 != 0, 1, 0)
+//@   ensures result3 == ite(k >= 3 && mask & m2 != 0, 1, 0)
+
+//@ func verifUnregister props C17
+//@   bounded 3 registered entries, one unregistration, one notification
+//@   impl Element *Entry
+//@   impl Linker *Entry
+//@   inline_callee Notify
+//@   impl EntryCallback *verifCounter
+//@   unroll_calls * 5
+//@   requires 0 <= j && j <= 2
+//@   ensures result1 == ite(j != 0 && mask & m0 != 0, 1, 0)
+//@   ensures result2 == ite(j != 1 && mask & m1 != 0, 1, 0)
+//@   ensures result3 == ite(j != 2 && mask & m2 != 0, 1, 0)
+
+//@ func verifEvents props C17
+//@   bounded at most 3 registered entries
+//@   impl Element *Entry
+//@   impl Linker *Entry
+//@   inline_callee Notify
+//@   unroll_calls * 5
+//@   requires 0 <= k && k <= 3
+//@   ensures implies(k == 0, result == 0)
+//@   ensures implies(k == 1, result == m0)
+//@   ensures implies(k == 2, result == m0 | m1)
+//@   ensures implies(k == 3, result == m0 | m1 | m2)
